@@ -396,6 +396,22 @@ def run_ledger_case(ctx, rng, n, mon):
         if [(r[0], r[1], r[2]) for r in in_agg] != [(a, c, s_) for a, (c, s_) in groups.items()]:
             ctx.violation('c08.ledger_in_subquery_vs_membership', f'{text_a}: groups differ from grouping the member rows', dict(case, statement=text_a, subquery=inner))
             return
+        # SELECT * over a sub-query: its columns and rows unchanged, whatever their datatypes (metadata dicts, sets, inventories)
+        inner_w = rng.choice(['SELECT date, meta, account FROM #postings', 'SELECT date, meta, comment FROM #notes', 'SELECT entry.meta AS em, account, tags, position FROM #postings',
+                              'SELECT account, sum(position) AS s, first(meta) AS m GROUP BY account', 'SELECT name, meta FROM #commodities'])
+        try:
+            ci = conn.execute(inner_w)
+            di, ri = [(d.name, d.datatype) for d in ci.description], ci.fetchall()
+            for outer_w in (f'SELECT * FROM ({inner_w})', f'SELECT * FROM (SELECT * FROM ({inner_w}))'):
+                co = conn.execute(outer_w)
+                do, ro = [(d.name, d.datatype) for d in co.description], co.fetchall()
+                ctx.count('obs.ledger_star_over_subquery')
+                if do != di or not same_rows(ro, ri):
+                    ctx.violation('c08.star_over_subquery', f'{outer_w}: columns {[n for n, _ in do]} ({len(ro)} rows); the sub-query itself gives {[n for n, _ in di]} ({len(ri)} rows)', dict(case, statement=outer_w))
+                    return
+        except Exception as exc:  # noqa: BLE001
+            ctx.violation(f'c08.ledger_subquery_raised.{monitors.classify_exception(exc)}', f'SELECT * FROM ({inner_w}): {type(exc).__name__}: {exc}', case)
+            return
         # FROM (sub-query with its own period) = the same statement over the sub-query's own rows
         sub = f'SELECT account AS a, number AS x, year AS y {frm(rng.choice(PERIODS), rng.choice(FILTERS))}'
         text_f = f'SELECT a, sum(x) AS s, count(*) AS c FROM ({sub}) WHERE y >= 2019 GROUP BY a'
